@@ -297,3 +297,46 @@ Section Ignored.
     - rewrite H1, H2. split; discriminate.
   Qed.
 End Ignored.
+
+(** any number of bad-but-well-formed files, added one after the other *)
+Section Many.
+  Variable b64dec : str -> option (list N).
+  Variable loads : list N -> option json.
+  Variable sig_ok : str -> list N -> str -> bool.
+  Variable now_s : Z.
+  Variable now_us : Z.
+  Variable exec : list json -> exec_result.
+
+  Inductive bad_files_added (a : args) : list (str * file) -> list (str * file) -> Prop :=
+  | bfa_none : forall files, bad_files_added a files files
+  | bfa_one : forall files files' files'' fn j md,
+      file_added fn (FJson j) files files' -> from_dict b64dec loads j = Ok md ->
+      (forall l, pre_layout sig_ok now_s now_us a = Ok l ->
+         bad_file_b sig_ok now_s l fn md = true /\ NoDup (map st_name (ly_steps l))) ->
+      bad_files_added a files' files'' -> bad_files_added a files files''.
+
+  Theorem ignored_many : forall a files files', bad_files_added a files files' ->
+    forall recs missing,
+    verify_body b64dec loads sig_ok now_s now_us exec files' recs missing a =
+    verify_body b64dec loads sig_ok now_s now_us exec files recs missing a \/
+    (verify_body b64dec loads sig_ok now_s now_us exec files recs missing a = (Err ELinkNotFound, []) /\
+     exists e, verify_body b64dec loads sig_ok now_s now_us exec files' recs missing a = (Err e, [])).
+  Proof.
+    induction 1 as [files|files files' files'' fn j md HA HJ Hb _ IH]; intros recs missing; [left; reflexivity|].
+    destruct (ignored b64dec loads sig_ok now_s now_us exec files files' fn j md HA HJ recs missing a Hb)
+      as [[_ H1]|[H1 [e H2]]]; destruct (IH recs missing) as [H3|[H3 [e' H4]]].
+    - left. congruence.
+    - right. split; [congruence|exists e'; exact H4].
+    - right. split; [exact H1|]. exists e. congruence.
+    - right. split; [exact H1|]. exists e'. exact H4.
+  Qed.
+
+  Corollary ignored_many_accept : forall a files files' recs missing sum tr, bad_files_added a files files' ->
+    (verify_body b64dec loads sig_ok now_s now_us exec files recs missing a = (Ok sum, tr) <->
+     verify_body b64dec loads sig_ok now_s now_us exec files' recs missing a = (Ok sum, tr)).
+  Proof.
+    intros a files files' recs missing sum tr H. destruct (ignored_many a files files' H recs missing) as [H1|[H1 [e H2]]].
+    - rewrite H1. reflexivity.
+    - rewrite H1, H2. split; discriminate.
+  Qed.
+End Many.
